@@ -1,0 +1,8 @@
+//! Environment models used ONLY when this crate is compiled by the Kani model checker
+//! (`cfg(kani)`).  They replace engines that a bit-precise bounded model checker cannot
+//! execute symbolically (hashbrown/SipHash tables, the regex engine) by small, obviously
+//! correct stand-ins with the same API subset, so that the crate's own logic around them
+//! can be checked for all inputs within a bound.  Nothing here is compiled in normal builds.
+pub mod map;
+pub mod ordered_set;
+pub mod regex_model;
